@@ -10,13 +10,13 @@ Set Warnings "-unused-intro-pattern".
 #[local] Opaque FUEL.
 
 Definition flat_class_b (k : cls) : bool :=
-  negb (c_dnc k) && is_none (c_post_copy k) &&
+  negb (c_dnc k) && oqfn_b (c_post_copy k) &&
   forallb (fun sp => negb (a_dnc sp) && (scalar_ty (a_ty sp) || scalar_coll (a_ty sp))) (c_attrs k).
 
 Lemma flat_class_b_sound k : flat_class_b k = true -> flat_class k.
 Proof.
   unfold flat_class_b, flat_class. rewrite !andb_true_iff. intros [[H1 H2] H3].
-  split; [now apply negb_true_iff|]. split; [destruct (c_post_copy k); auto; discriminate|].
+  split; [now apply negb_true_iff|]. split; [now apply oqfn_b_sound|].
   intros sp Hsp. rewrite forallb_forall in H3. specialize (H3 _ Hsp).
   apply andb_true_iff in H3. destruct H3 as [H3 H4]. split; [now apply negb_true_iff|].
   now apply orb_true_iff.
@@ -246,7 +246,7 @@ Definition ctor_class_b (ct : ctable) (c : cid) : bool :=
   match lookup_cls ct c with
   | Some k =>
       flat_class_b k && (c_owner k =? c) && (match tl (c_mro k) with [] => true | _ => false end) &&
-      is_none (c_post_init k) && forallb (fun sp => leaf_attr_b sp && default_ok_b k sp) (c_attrs k)
+      oqfn_b (c_post_init k) && forallb (fun sp => leaf_attr_b sp && default_ok_b k sp) (c_attrs k)
   | None => false
   end.
 Lemma ctor_class_b_sound ct c : ctor_class_b ct c = true -> exists k, ctor_class ct c k.
@@ -255,7 +255,7 @@ Proof.
   rewrite !andb_true_iff. intros [[[[H1 H2] H3] H4] H5]. exists k.
   split; auto. split; [now apply flat_class_b_sound|]. split; [now apply Nat.eqb_eq|].
   split; [destruct (tl (c_mro k)); auto; discriminate|].
-  split; [destruct (c_post_init k); auto; discriminate|].
+  split; [now apply oqfn_b_sound|].
   intros sp Hsp. rewrite forallb_forall in H5. specialize (H5 _ Hsp). apply andb_true_iff in H5.
   destruct H5. split; [now apply leaf_attr_b_sound|now apply default_ok_b_sound].
 Qed.
